@@ -152,6 +152,15 @@ def idxOkB (sch : Schema) (s : Store) : Bool :=
         | none => true)
     | .pk _ _ => true)
 
+/-- executable form of the schema hypothesis `SchemaWf` of `C13_reachable` -/
+def schemaWfB (sch : Schema) : Bool :=
+  ((List.range sch.ckeys.length).all fun k => (sch.keyAttrs k).all fun a => match sch.decl a with
+      | some d => sch.entOfKey k == some d.ent
+      | none => true) &&
+  ((List.range sch.attrs.length).all fun a => match sch.decl a with
+      | some d => (!d.unique || d.kind == .scalar) && (!sch.isKeyPart a || d.kind != .coll)
+      | none => true)
+
 def handle (j : Json) : Except String Json := do
   let op ← argStr j "op"
   match op with
@@ -165,6 +174,9 @@ def handle (j : Json) : Except String Json := do
           | _ => (run1 sch op { store := acc.1 }).st.trail.length
         (o.store, Json.mkObj [("err", match o.err with | none => Json.null | some e => Json.str (errName e)),
                                ("trail", toJson tl), ("wf", toJson (saveOkB o.store && idxOkB sch o.store)),
+                               ("guard", toJson (schemaWfB sch && (match op, o.err with
+                                 | .create _ _ _, none => decide ((o.store.row acc.1.n).status = .created)
+                                 | _, _ => true))),
                                ("obs", dump sch o.store)] :: acc.2)) (({} : Store), [])
       pure (Json.mkObj [("steps", .arr outs.reverse.toArray)])
   | _ => throw s!"unknown op {op}"
